@@ -14,7 +14,7 @@ spec = {
 }
 node = {
   'params': [[pname, mark], ...],
-  'beh': 'ok' | 'none' | ['int', z] | ['str', s] | ['recur', k] | ['receven', k],
+  'beh': 'ok' | 'none' | ['int', z] | ['str', s] | ['recur', k] | ['receven', k] | ['strep', [l0, l1, ...]] (label by iteration),
   'fails': [cls|None, ...]    # outcome of attempt a = fails[min(a, len-1)]; None = success; [] = never fails
   'mode': 'gated'|'immediate'|'inline'|'thread'|'process',
   'attempts': None|int, 'delay': None|number, 'exceptions': None|[cls...], 'use_default': bool,
@@ -250,6 +250,8 @@ def materialize(spec, rt_holder, tag=''):
             ep = find_epoch(kwargs)
             if ep % 2 == 0 and ep < b[1]:
                 return self.next_iteration(ep + 1)
+        if isinstance(b, list) and b[0] == 'strep':
+            return b[1][min(find_epoch(kwargs), len(b[1]) - 1)]
         return ('v', i, tuple(sorted((canon_key(k), v) for k, v in kwargs.items())))
 
     for i, nd in enumerate(nodes):
@@ -354,4 +356,6 @@ def pure_compute(i, nd_json, kwargs, self):
         ep = find_epoch(kwargs)
         if ep % 2 == 0 and ep < b[1]:
             return self.next_iteration(ep + 1)
+    if isinstance(b, list) and b[0] == 'strep':
+        return b[1][min(find_epoch(kwargs), len(b[1]) - 1)]
     return ('v', i, tuple(sorted((canon_key(k), v) for k, v in kwargs.items())))
